@@ -165,7 +165,7 @@ def h_forms(nr, nc, form, kind='real'):
         D = [[1.0 if is_sym(v) else 0.0 for v in r] for r in D]
     oids, sids = ids_for(nr, 'observation'), ids_for(nc, 'sample')
     data, kw = encode(form, D, nr, nc, kind)
-    md = pick(['none', 'both'], 'md')
+    md = pick(['none', 'both', 'falsy'], 'md')
     omd, smd = metadata_menu(md, oids, sids)
     t, e = call(lambda: b.Table(data, list(oids), list(sids), omd, smd, type='OTU table', **kw))
     sig = dict(form=form, element_type=kind)
@@ -207,8 +207,9 @@ def h_adjacency(nrec, header):
         lines.append(T.mk([o + '\t' + s_ + '\t', num, '\n']))
     if not header:
         # the header-less form sniffs the first line's third field with a regular expression: concrete first value
-        lines[0] = recs[0][0] + '\t' + recs[0][1] + '\t2.5\n'
-        recs[0] = (recs[0][0], recs[0][1], 2.5)
+        first = pick(['2.5', '2.5e-07', '1e+16', '-3', '7', '+0.5', '3E2'], 'first-value-text')
+        lines[0] = recs[0][0] + '\t' + recs[0][1] + '\t' + first + '\n'
+        recs[0] = (recs[0][0], recs[0][1], float(first))
     t, e = call(lambda: b.Table.from_adjacency(list(lines)))
     sig = dict(header=int(header), n=nrec)
     if e is not None:
@@ -254,17 +255,26 @@ def h_malformed(nr, nc, form, oid_v, sid_v):
     cells, D = sym_matrix(nr, nc, dense_only=flag('dense'))
     # "non-empty table" = a table with IDs on both axes (Table.is_empty looks at the IDs); an all-zero matrix counts
     data, kw = encode(form, D, nr, nc)
+    degenerate = None
+    if form == 'dense-array' and oid_v == 'ok' and sid_v == 'ok' and flag('matrix-with-a-zero-length-axis'):
+        # the data carries its own degenerate shape while both id lists are non-empty: the counts disagree
+        import numpy as np
+        degenerate = pick(['0xM', 'Nx0', 'empty-1d', 'csr-0xM'], 'degenerate-matrix')
+        data = {'0xM': np.zeros((0, nc)), 'Nx0': np.zeros((nr, 0)), 'empty-1d': np.array([]),
+                'csr-0xM': b.csr((0, nc))}[degenerate]
     omd_v = pick(MD_VARIANTS, 'obs-md')
     smd_v = pick(MD_VARIANTS, 'samp-md') if omd_v in ('none', 'ok') else 'none'
     oids = _ids(oid_v, ids_for(nr, 'observation'))
     sids = _ids(sid_v, ids_for(nc, 'sample'))
     omd, smd = _md(omd_v, nr), _md(smd_v, nc)
-    bad = (oid_v != 'ok' or sid_v != 'ok' or omd_v not in ('none', 'ok', 'ok-with-null') or smd_v not in ('none', 'ok', 'ok-with-null'))
+    bad = (degenerate is not None or oid_v != 'ok' or sid_v != 'ok' or omd_v not in ('none', 'ok', 'ok-with-null')
+           or smd_v not in ('none', 'ok', 'ok-with-null'))
     t, e = call(lambda: b.Table(data, oids, sids, omd, smd, **kw))
     FALSY = ('all-zero-ints', 'all-empty-strings', 'too-short-all-null', 'too-long-all-null')
     only_falsy_md = (oid_v == 'ok' and sid_v == 'ok' and all(v in FALSY + ('none', 'ok', 'ok-with-null') for v in (omd_v, smd_v))
                      and any(v in FALSY for v in (omd_v, smd_v)))
-    sig = dict(form=form, obs_ids=oid_v, samp_ids=sid_v, obs_md=omd_v, samp_md=smd_v, only_all_falsy_metadata=int(only_falsy_md))
+    sig = dict(form=form, obs_ids=oid_v, samp_ids=sid_v, obs_md=omd_v, samp_md=smd_v, only_all_falsy_metadata=int(only_falsy_md),
+               matrix=degenerate or 'ok')
     X = b.X
     if bad:
         if e is None:
@@ -300,6 +310,9 @@ def jobs(tier):
                 if form == 'triples' and (ov.startswith('too') or sv.startswith('too')):
                     continue        # coordinate triples take their shape from the ID lists: a different ID count is a different table
                 out.append(('malformed', (2, 2, form, ov, sv)))
+    # three ids: duplicates that are not neighbours
+    for ov, sv in (('dup-first-last', 'ok'), ('ok', 'dup-first-last')):
+        out.append(('malformed', (3, 3, 'csr', ov, sv)))
     return out
 
 
